@@ -523,12 +523,22 @@ class TopologicalSorter:
         for name in names:
             add_node(name)
 
-        has_before, has_after = set(), set()
         for a, b in order:
             if a in names and b in names:  # deal with missing dependencies
                 add_arc(a, b)
-                has_before.add(a)
-                has_after.add(b)
+
+        # a name's requirement is satisfied only by one of its own
+        # alternatives being present, not by an arc another name declared
+        has_before = {
+            name
+            for name, others in self.name2before.items()
+            if any(o in names for o in others)
+        }
+        has_after = {
+            name
+            for name, others in self.name2after.items()
+            if any(o in names for o in others)
+        }
 
         if not self.req_before.issubset(has_before):
             # avoid circular dependency
